@@ -1127,10 +1127,10 @@ def reference_oracle(out, rng, big):
     import numpy as np
     from beyond.dates import Date
     from beyond.orbits import StateVector
-    rsc = ref_scenario(rng, {n: i for i, n in enumerate(orient_names())}, 0, 40 if big else 6)
-    insts = [rsc.rand_instant(rng) for _ in range(6 if big else 2)]
-    for rnd in range(3 if big else 1):
-        for mode in rng.sample(list(MODES), 5 if big else 2):
+    rsc = ref_scenario(rng, {n: i for i, n in enumerate(orient_names())}, 0, 16 if big else 6)
+    insts = [rsc.rand_instant(rng) for _ in range(3 if big else 1)]
+    for rnd in range(2 if big else 1):
+        for mode in rng.sample(list(MODES), 3 if big else 2):
             set_eop(mode)
             for d, s in insts:
                 date = Date(d, s)
@@ -1453,7 +1453,7 @@ def correspondence(ctx):
             seq.append(v)
     # A5. frames attached to every kind of reference (RefScenario), the same instants under several configurations, every conversion made
     # three times; afterwards the references are what the caller handed in
-    rsc = ref_scenario(rng, idx, 0, ctx.n(6, 40))
+    rsc = ref_scenario(rng, idx, 0, ctx.n(6, 16))
     rinst = [rsc.rand_instant(rng) for _ in range(ctx.n(3, 10))]
     for rnd in range(ctx.n(1, 3)):
         order = list(MODES)
